@@ -191,9 +191,70 @@ func (x *X) emit(s *State, kind, name string, labels []string, goal string, clau
 	if n := x.nameCnt[full]; n > 1 {
 		full = fmt.Sprintf("%s.%d", full, n)
 	}
-	o := &Oblig{Name: full, Fn: x.key, Kind: kind, Labels: labels, Goal: goal, PC: append([]string{}, s.pc...), Clause: clause}
-	o.Decls = x.decls[:len(x.decls):len(x.decls)]
-	x.obligs = append(x.obligs, o)
+	// a conjunctive goal is split into one obligation per conjunct (through =>, forall and let-free structure): smaller
+	// queries, and a failure names the conjunct
+	goals := []string{goal}
+	if kind != "vacuity" && strings.Contains(goal, "(and ") {
+		if e, err := parseSx(goal); err == nil {
+			parts := splitConj(e, 0)
+			if len(parts) > 1 && len(parts) <= 8 {
+				goals = goals[:0]
+				for _, p := range parts {
+					goals = append(goals, p.String())
+				}
+			}
+		}
+	}
+	pc := append([]string{}, s.pc...)
+	for i, g := range goals {
+		nm := full
+		if len(goals) > 1 {
+			nm = fmt.Sprintf("%s/c%d", full, i+1)
+		}
+		o := &Oblig{Name: nm, Fn: x.key, Kind: kind, Labels: labels, Goal: g, PC: pc, Clause: clause}
+		o.Decls = x.decls[:len(x.decls):len(x.decls)]
+		x.obligs = append(x.obligs, o)
+	}
+}
+
+// splitConj splits a formula into conjuncts, distributing =>, forall and pattern annotations over "and".
+func splitConj(e *sx, depth int) []*sx {
+	if e.isAtom() || len(e.kids) == 0 || !e.kids[0].isAtom() || depth > 6 {
+		return []*sx{e}
+	}
+	switch e.kids[0].atom {
+	case "and":
+		var out []*sx
+		for _, k := range e.kids[1:] {
+			out = append(out, splitConj(k, depth+1)...)
+		}
+		return out
+	case "=>":
+		if len(e.kids) == 3 {
+			var out []*sx
+			for _, c := range splitConj(e.kids[2], depth+1) {
+				out = append(out, &sx{kids: []*sx{e.kids[0], e.kids[1], c}})
+			}
+			return out
+		}
+	case "forall":
+		if len(e.kids) == 3 {
+			body := e.kids[2]
+			if !body.isAtom() && len(body.kids) >= 2 && body.kids[0].isAtom() && body.kids[0].atom == "!" {
+				body = body.kids[1] // drop the pattern: it may not cover every conjunct
+			}
+			parts := splitConj(body, depth+1)
+			if len(parts) == 1 {
+				return []*sx{e}
+			}
+			var out []*sx
+			for _, c := range parts {
+				out = append(out, &sx{kids: []*sx{e.kids[0], e.kids[1], c}})
+			}
+			return out
+		}
+	}
+	return []*sx{e}
 }
 
 // ---------------------------------------------------------------- fresh symbolic values
